@@ -65,12 +65,14 @@ def step (st : St) (line : String) : IO St := do
       | some r =>
         let m := classify TestCases.Gen.accepted r
         let implClass := if kind == "RUN" then "runs" else if kind == "REJECTED" then "rejected"
-          else if (kv rest "status") == some "1" ∧ (kv rest "signal") == some "0" then "usageExit" else "crash"
+          -- the command-line library prints its usage message and calls exit(1) while the options are parsed; a process exit in
+          -- setup() or solve() is not a clean rejection
+          else if (kv rest "status") == some "1" ∧ (kv rest "signal") == some "0" ∧ (kv rest "stage").getD "params" == "params" then "usageExit" else "crash"
         let modelClass := match m with | .usageExit => "usageExit" | .rejected _ => "rejected" | .runs _ _ _ => "runs" | .undefined _ => "undefined"
         IO.println s!"SIG options outcome={implClass} stage={(kv rest "stage").getD "-"} nr_exp={r.nrExp} aniso={r.aniso} maxLevels={r.maxLevels} extrap={r.extrapolation}"
         let mut st := st
         if implClass == "crash" then
-          IO.println s!"ORACLE C20 an option combination neither ran to completion nor was rejected cleanly (crash / abort / sanitizer report): {line.trimAscii} for {st.curLine}"
+          IO.println s!"ORACLE C20 an option combination neither ran to completion nor was rejected cleanly (crash / abort / sanitizer report / process exit inside setup() or solve()): {line.trimAscii} for {st.curLine}"
           st := { st with oracleFails := st.oracleFails + 1 }
         let mut stats ← check st.stats (implClass == modelClass) fun _ => s!"options: implementation outcome `{implClass}` ({line.trimAscii}), model `{modelClass}` ({repr m}): {st.curLine}"
         if kind == "RUN" then
